@@ -837,6 +837,9 @@ func c06Corpus(o *Out) error {
 		{isCase: true, whens: [][2]*ex{{cmp("gt", a, num(2, 1)), str("hi")}, {cmp("gt", b, num(2, 1)), str("mid")}}, els: str("lo")},
 		{isCase: true, v: a, whens: [][2]*ex{{num(3, 1), num(10, 1)}, {num(5, 2), num(20, 1)}}, els: num(30, 1)},
 		{isCase: true, v: col("s"), whens: [][2]*ex{{str("ab"), num(1, 1)}}},
+		// identifiers that begin with the letters of a keyword operator (fixed finding F22)
+		{e: bin("add", col("order_id"), num(1, 1))},
+		{isCase: true, whens: [][2]*ex{{cmp("gt", col("is_ok"), num(0, 1)), col("origin")}}, els: col("android")},
 	}
 	for _, t := range list {
 		c06Expr(o, r, normTop(t), false)
